@@ -33,6 +33,7 @@ class RecordingTransport(Transport):
         self.fail_pred = None  # callable(line, n_matching_so_far) -> bool
         self.fail_exc = TransportFailedError  # class raised for an injected fault
         self.fail_after_record = False  # the bytes reach the wire, THEN the write raises (e.g. drain() failing)
+        self.hang_pred = None  # callable(line) -> bool: the write never completes (a hung link) until the caller is cancelled
         self.on_write = None  # callable(line) run at the moment of a successful write
         self.connected = 0
         self.disconnected = 0
@@ -46,10 +47,16 @@ class RecordingTransport(Transport):
     async def read(self) -> str:
         if not self.inbox:
             raise Drained
-        return self.inbox.pop(0)
+        item = self.inbox.pop(0)
+        if isinstance(item, BaseException):
+            raise item  # an injected read failure (line noise, a lost link)
+        return item
 
     async def write(self, decoded_message: str) -> None:
         idx = len(self.attempts)
+        if self.hang_pred is not None and self.hang_pred(decoded_message):
+            self.attempts.append((self.step, decoded_message, True))
+            await asyncio.get_running_loop().create_future()  # never resolved: only a cancellation ends this write
         failed = idx in self.fail_attempts
         if not failed and self.fail_pred is not None:
             failed = bool(self.fail_pred(decoded_message))
@@ -66,6 +73,28 @@ class RecordingTransport(Transport):
 
     def writes_at(self, step: int) -> list[str]:
         return [line for stp, line in self.writes if stp == step]
+
+
+class FakeClock:
+    """While active, time.monotonic()/time.time() run `offset` seconds ahead; `advance` lets hours pass in no time."""
+
+    def __init__(self) -> None:
+        self.offset = 0.0
+
+    def __enter__(self):
+        import time
+
+        self._time = time
+        self._mono, self._wall = time.monotonic, time.time
+        time.monotonic = lambda: self._mono() + self.offset  # type: ignore[assignment]
+        time.time = lambda: self._wall() + self.offset  # type: ignore[assignment]
+        return self
+
+    def advance(self, seconds: float) -> None:
+        self.offset += float(seconds)
+
+    def __exit__(self, *exc) -> None:
+        self._time.monotonic, self._time.time = self._mono, self._wall
 
 
 class _Swallow(logging.Handler):
@@ -142,6 +171,17 @@ def in_ctx(mode: str | None, func):
     return value
 
 
+def read_error(kind: str) -> BaseException:
+    """A transport read failure of the given kind, as the library's transports raise them."""
+    from aiomysensors.exceptions import TransportReadError
+
+    if kind == "read":
+        return TransportReadError(UnicodeDecodeError("utf-8", b"\xff", 0, 1, "invalid start byte"), b"1;2\xff")
+    if kind == "failed":
+        return TransportFailedError("injected read failure: link lost")
+    return TransportError("injected read failure")
+
+
 def make_gateway(version: str | None, *, metric: bool = True, transport: Transport | None = None, ctx: str | None = None) -> tuple[Gateway, Any]:
     transport = transport or RecordingTransport()
 
@@ -201,6 +241,9 @@ class Listener:
         except Exception as err:  # noqa: BLE001
             await self._drop()
             return "leak", err
+        except BaseException:
+            self.agen = None  # cancelled inside the generator: it is finished
+            raise
         finally:
             transport.inbox.clear()  # type: ignore[attr-defined]
         return "ok", msg
